@@ -253,7 +253,7 @@ pub fn fragments() -> Vec<&'static str> {
 pub fn adversarial_chars() -> Vec<char> {
     let mut v: Vec<char> = vec![
         '\u{0b}', '\u{0c}', '\u{85}', '\u{a0}', '\u{1680}', '\u{2000}', '\u{2002}', '\u{2003}', '\u{2009}', '\u{200a}', '\u{200b}', '\u{2028}', '\u{2029}', '\u{202f}', '\u{205f}', '\u{3000}', '\u{feff}', '\u{301}', '٣', '²', 'Ⅷ', '½',
-        '\u{7f}', '\u{1}', '\u{ff}', '\u{d7ff}', '\u{e000}', '\u{10ffff}',
+        '\u{7f}', '\u{1}', '\0', '\u{ff}', '\u{d7ff}', '\u{e000}', '\u{10ffff}',
     ];
     let ascii: Vec<u32> = (0x21u32..=0x2f).chain(0x3a..=0x40).chain(0x5b..=0x60).chain(0x7b..=0x7e).chain([0x30, 0x39, 0x20, 0x09, 0x0a, 0x0d]).collect();
     for base in [0x100u32, 0x400, 0x4e00, 0x1f600] {
@@ -281,7 +281,7 @@ pub fn long_input(filler: &str, n: usize) -> String {
     }
 }
 
-pub const ADVERSARIAL_CONTEXT: &[&str] = &["", "5", "a", "+", " ", "\n", "(", ":a", ".", "<", "@n", "\"", "x`"];
+pub const ADVERSARIAL_CONTEXT: &[&str] = &["", "5", "a", "+", " ", "\n", "(", ":a", ".", "<", "@n", "\"", "x`", "\"x", "'x", "x\"", "@@c"];
 
 fn random_input(t: &mut Tape) -> String {
     let frags = fragments();
@@ -313,7 +313,7 @@ impl Check for C13Check {
     fn rule(&self) -> String {
         format!(
             "Phase strings: every string of length 0..L over a {}-character alphabet with one representative per character class (digit, letter, each operator character, backtick, both quotes, backslash, space, tab, LF, CR, 2-/3-/4-byte characters), \
-             in size order (L=4 quick, 5 thorough); pairs: every ordered pair of token spellings (all operators plus literal/identifier/annotation/whitespace fragments) adjacent and separated by a space or newline; random: strings of up to 40 fragments from a proptest tape; long-lines: tokens after 254..70000 characters of one long identifier / text / white-space run / operator sequence, and after that many line breaks (columns and lines around the limits of 8- and 16-bit counters); unicode-adversarial: every non-ASCII white-space / zero-width / non-ASCII numeric character and every character of four other Unicode blocks that shares its low byte with an ASCII punctuation character, digit or blank, between every ordered pair of 13 contexts. \
+             in size order (L=4 quick, 5 thorough); pairs: every ordered pair of token spellings (all operators plus literal/identifier/annotation/whitespace fragments) adjacent and separated by a space or newline; random: strings of up to 40 fragments from a proptest tape; long-lines: tokens after 254..70000 characters of one long identifier / text / white-space run / operator sequence, and after that many line breaks (columns and lines around the limits of 8- and 16-bit counters); unicode-adversarial: every non-ASCII white-space / zero-width / non-ASCII numeric character and every character of four other Unicode blocks that shares its low byte with an ASCII punctuation character, digit or blank, between every ordered pair of 17 contexts (incl. inside a text / byte-list literal after its first character; the NUL character is among them). \
              Oracle on Ok: concatenation of token texts equals the input, no empty token, (line, column) equal an independent count (skipped when the input contains CR/FF), every token is a valid member of its class by the reference token table, \
              no operator/identifier/number/annotation/whitespace token could have been extended by the next characters, no character that cannot start or continue a token sits in a non-literal token, and widening any blank line with spaces/tabs keeps the same non-whitespace token classes. \
              Err results are always accepted. Non-trivial = lexes to >= 2 tokens of >= 2 classes; distinct = distinct input strings.",
